@@ -14,7 +14,7 @@ from lib import c01_util as U
 from props import C09 as N  # generators and Coq printers of the shared domain vocabulary (imported, not edited)
 
 PROP = "C01"
-PROPS_FILES = ["Props/C01.v", "Props/C01_refuted.v"]
+PROPS_FILES = ["Props/C01.v", "Props/C01_refuted.v", "Props/C01_softmax.v"]
 ASSUMPTIONS = [
   "what the optimisers and one-hot samplers hand to the endpoint tail lies in the relaxed box and satisfies the double-typed "
   "constraints (relaxed_ok): conclusion of C07 / C08 under their own contracts (SciPy results leaving the domain are discarded "
@@ -300,6 +300,12 @@ def dyadic_request(rng, endpoint, **kw):
   dom = N.gen_domain(rng, kw.get("n_int_con", rng.choice([0, 0, 1, 2])), kw.get("n_dbl_con", rng.choice([0, 0, 1])), max_comps=3)
   req["comps"], req["cons"], req["priors"] = dom["comps"], dom["cons"], None
   return req
+
+
+def generate(ctx):
+  """Tie T for the one closed-form piece of C01: the probabilities of the task draw are regenerated from the source (Gen/GenSoftmax.v)."""
+  from py2v import gen
+  return gen.generate(ctx, ["GenSoftmax"])
 
 
 def pool_map(fn, reqs, workers=8):
